@@ -100,6 +100,9 @@ pub enum Op {
     NsNodeSetNamespace { n: Lid, uri: String },
     TextContentSet { n: Lid, s: String },
     // store-wide
+    /// another client registers this many fresh namespaces / prefixes / names: later registrations
+    /// get ids beyond 64, 256, ... (nothing in any tree changes)
+    RegisterBulk { namespaces: u32, prefixes: u32, names: u32 },
     SetConsolidation { on: bool },
     RemoveInsignificantWhitespace { n: Lid },
     CreateMissingPrefixes { n: Lid },
@@ -178,6 +181,7 @@ impl Op {
             AttrNodeSetValue { .. } => "attribute_node_mut.set_value",
             NsNodeSetNamespace { .. } => "namespace_node_mut.set_namespace",
             TextContentSet { .. } => "text_content_mut",
+            RegisterBulk { .. } => "add_namespace/add_prefix/add_name (bulk)",
             SetConsolidation { .. } => "set_text_consolidation",
             RemoveInsignificantWhitespace { .. } => "remove_insignificant_whitespace",
             CreateMissingPrefixes { .. } => "create_missing_prefixes",
@@ -286,6 +290,7 @@ impl Op {
                 | NewNs { .. }
                 | Parse { .. }
                 | Xotify { .. }
+                | RegisterBulk { .. }
                 | SetConsolidation { .. }
         )
     }
@@ -577,6 +582,7 @@ impl Op {
                 m.set_cons(*on);
                 Pred::Done(None)
             }
+            RegisterBulk { .. } => Pred::Done(None),
             RemoveInsignificantWhitespace { .. } | CreateMissingPrefixes { .. } | DeduplicateNamespaces { .. } => {
                 Pred::Unknown
             }
@@ -1029,6 +1035,18 @@ impl Op {
             }
             SetConsolidation { on } => {
                 x.set_text_consolidation(*on);
+                Ok(None)
+            }
+            RegisterBulk { namespaces, prefixes, names } => {
+                for i in 0..*namespaces {
+                    x.add_namespace(&format!("urn:bulk:{}", i));
+                }
+                for i in 0..*prefixes {
+                    x.add_prefix(&format!("bulk{}", i));
+                }
+                for i in 0..*names {
+                    x.add_name(&format!("bulk{}", i));
+                }
                 Ok(None)
             }
             RemoveInsignificantWhitespace { n } => {
